@@ -577,7 +577,7 @@ static void EnterQWord(LargeWord q) {
 
 static void EnterIEEE2(Word* pField) {
     if (ListGran() == 1) {
-        BAsmCode[CodeLen]     = Hi(pField[1]);
+        BAsmCode[CodeLen]     = Hi(pField[0]);
         BAsmCode[CodeLen + 1] = Lo(pField[0]);
     } else {
         WAsmCode[(CodeLen >> 1)] = pField[0];
